@@ -115,10 +115,17 @@ def _hist_job(job):
 SKELETONS = [(['**kern', '**text', '**kern'], ['k', 'b', 'd', 'd', 'S0', 'd', 'J0', 'b', 'd', 'b']),
              (['**kern'], ['k', 'b', 'd', 'g', 'd', 'b', 'g', 'd']),
              (['**root', '**dynam', '**kern'], ['k', 'b', 'd', 'c', 'd', 'b']),
-             (['**harm', '**kern', '**mxhm'], ['i', 'b', 'd', 'S1', 'd', 'J1', 'b'])]
+             (['**harm', '**kern', '**mxhm'], ['i', 'b', 'd', 'S1', 'd', 'J1', 'b']),
+             (['**kern', '**kern', '**text', '**kern'], ['GIANT']),               # ~1 900 lines, > 4 700 kern cells (mass mode only)
+             (['**kern', '**kern', '**text', '**kern'], ['GIANT', '3400'])]       # > 10 000 kern cells (thorough tier)
 
 
 PRE = {1: ('!!!COM: Bach', '!!plain'), 3: ('!!!OTL: t',)}
+
+
+def skel_model(headers, seq, seed, pre=()):
+    from .. import docspace as D
+    return D.materialise((headers, seq, seed), cap=6, pre=pre)
 
 
 def positions(m):
@@ -127,7 +134,7 @@ def positions(m):
 
 def damaged(headers, seq, seed, places, blank_before=None, pre=()):
     """model of the damaged document: the cells at `places` replaced by malformed texts"""
-    m = X.seq_model(headers, seq, seed, cap=6, pre=pre)
+    m = skel_model(headers, seq, seed, pre)
     repl = dict(places)
     exp_err = []
     for c in m.cells():
@@ -144,7 +151,7 @@ def damaged(headers, seq, seed, places, blank_before=None, pre=()):
 
 def check_places(acc, sk, seed, places, blank_before=None):
     headers, seq = SKELETONS[sk]
-    m0 = X.seq_model(headers, seq, seed, cap=6, pre=PRE.get(sk, ()))
+    m0 = skel_model(headers, seq, seed, PRE.get(sk, ()))
     m, exp_err = damaged(headers, seq, seed, places, pre=PRE.get(sk, ()))
     lines = m.lines()
     shift = {}
@@ -229,7 +236,7 @@ def _doc_job(job):
     sk, seed, mode, lo, hi = job
     acc = Acc()
     headers, seq = SKELETONS[sk]
-    m0 = X.seq_model(headers, seq, seed, cap=6, pre=PRE.get(sk, ()))
+    m0 = skel_model(headers, seq, seed, PRE.get(sk, ()))
     pos = positions(m0)
     if mode == 'single':
         for bi in range(lo, hi):
@@ -247,6 +254,16 @@ def _doc_job(job):
         for k, ps in enumerate(triples):
             grp = TRAIL if (k + lo) % 3 == 2 else NONTRAIL
             check_places(acc, sk, seed, [(p, grp[(k + lo + 3 * i) % len(grp)]) for i, p in enumerate(ps)])
+    elif mode == 'mass':
+        # a very large document: one malformed cell at the very end; 40 times the SAME malformed text; 300 malformed cells (more than 256 errors in one import)
+        kpos = [p for p in pos if m0.rows[p[0]][1][p[1]].spec['k'] == 'n']
+        if lo == 0:
+            check_places(acc, sk, seed, [(kpos[-1], 'c4')])
+            check_places(acc, sk, seed, [(kpos[-2], '4c€'), (kpos[3], '#4c')])
+        elif lo == 1:
+            check_places(acc, sk, seed, [(p, 'c4') for p in kpos[5::len(kpos) // 40][:40]])
+        else:
+            check_places(acc, sk, seed, [(p, NONTRAIL[i % len(NONTRAIL)]) for i, p in enumerate(kpos[7::len(kpos) // 300][:300])] + [(kpos[-1], 'c4')])
     elif mode == 'blank':
         for k, p in enumerate(pos):
             for bb in (1, 2, p[0]):
@@ -270,8 +287,9 @@ def run(ctx):
                        'line numbers are 1-based physical line numbers (blank lines count)']
     ctx.pmap(_hist_job, [(h, depth) for h in IMPORTERS], chunksize=1)
     jobs = []
-    for sk in range(len(SKELETONS)):
-        m0 = X.seq_model(*SKELETONS[sk], seed, cap=6, pre=PRE.get(sk, ()))
+    jobs += [(4, seed, 'mass', k, 0) for k in range(3)] + ([] if quick else [(5, seed, 'mass', 0, 0)])
+    for sk in range(4):
+        m0 = skel_model(*SKELETONS[sk], seed, PRE.get(sk, ()))
         npos = len(positions(m0))
         for bi in range(0, len(BADS), 3):
             jobs.append((sk, seed, 'single', bi, min(bi + 3, len(BADS))))
